@@ -129,6 +129,10 @@ def pool(contract, seed=0, limit=4000):
     if cls_name in ("String", "Integer", "Number", "Boolean", "Null", "Array", "Nothing") and meth in ("type_validator", "validators"):
         yield from cap((fn, (mk(),)) for mk in instances_of(cls_name))
         return
+    if cls_name == "Element" and meth == "__call__" and contract.inst:
+        from statham.schema.constants import NotPassed
+        yield from cap((fn, (mk(), v, None)) for mk in instances_of(contract.inst) for v in [NotPassed()] + list(vals[::2]))
+        return
     if cls_name == "Element" and meth == "construct":
         yield from cap((fn, (mk(), v, UNBOUND_PROPERTY)) for mk in instances_of(contract.inst or "Element") for v in vals)
         return
@@ -206,6 +210,12 @@ def pool(contract, seed=0, limit=4000):
             yield from cap((fn, (p.clone(), nm, par)) for p in props() for nm in ("a", "", None) for par in (None, Element()))
         elif meth in ("clone", "annotation"):
             yield from cap((fn, (p,)) for p in props())
+        elif meth == "__eq__":
+            ps = list(itertools.islice(props(), 40))
+            from statham.schema.elements import String
+            from statham.schema.property import Property
+            ps += [Property(String(), source="x"), Property(String(), source="y"), Property(String(), required=True)]
+            yield from cap((fn, (a, b)) for a in ps[-12:] for b in ps[-12:] + [1, None, "s"])
         elif meth == "evolve":
             yield from cap((fn, (p, nm)) for p in props() for nm in ("a", "b[0]", ""))
         elif meth == "__call__":
@@ -285,7 +295,8 @@ def pool(contract, seed=0, limit=4000):
                 insts.append(k({"a": "v"}))
             except Exception:
                 pass
-        yield from cap((fn, (k, v, UNBOUND_PROPERTY)) for k in (A, B, C, D, E_) for v in list(vals[::2]) + insts)
+        from statham.schema.constants import NotPassed
+        yield from cap((fn, (k, v, UNBOUND_PROPERTY)) for k in (A, B, C, D, E_) for v in [NotPassed()] + list(vals[::2]) + insts)
         return
     if cls_name == "ObjectMeta" and meth in ("validators", "type_validator"):
         from statham.schema.elements import Object, String
